@@ -22,7 +22,15 @@ from harness.tranp_env import REPO
 LEAF = {1: 'def make() -> int:\n\treturn 1\n', 2: "def make() -> str:\n\treturn 'x'\n"}
 
 
+BODY_CLASS = {1: 1, 2: 2, 3: 1}  # variant 3 = variant 1 with a different layout (same emitted text, other file hash)
+
+
 def source_of(graph: str, m: str, v: int) -> str:
+	if v == 3:
+		text = source_of(graph, m, 1)
+		# layout-only edit: a blank line before the last statement / definition and one at the end
+		head, sep, last = text.rstrip('\n').rpartition('\n\n') if '\n\n' in text.rstrip('\n') else ('', '', text.rstrip('\n'))
+		return (f'{head}\n\n\n{last}\n\n' if sep else f'\n{last}\n\n')
 	if graph == 'Chain':
 		if m == 'c':
 			return LEAF[v]
